@@ -245,11 +245,11 @@ var c12ImportBases = []string{
 
 func TestC12(t *testing.T) {
 	r, e := start(t, "C12",
-		"base programs: generated accepted programs (scalars, functions, slices, strings, switch, every loop form), the repository suite's sources, programs with single and grouped imports, and rejected programs (token-edited or type-corrupted); each held as a token stream and re-rendered with random layout: zero/one/many blanks or tabs between tokens (zero only where the token grammar keeps them apart; a-1 is a legal re-layout of a - 1), inline block comments, trailing blanks, // comments before line breaks, LF/CRLF/mixed, 0-3 blank or comment-only lines at any existing line break (after '{', after 'case x:', inside import groups, at the start), any indentation, final newline as in the original. Oracle: same accept/reject for both targets and byte-identical scripts. Non-trivial = at least 3 layout edits of at least 2 kinds; distinct by re-laid-out text.",
+		"base programs: generated accepted programs (scalars, functions, slices, strings, switch, every loop form, input/read/write/exists and program calls, error/nil spellings), the repository suite's sources, programs with single and grouped imports, and rejected programs (token-edited or type-corrupted); each held as a token stream and re-rendered with random layout: zero/one/many blanks or tabs between tokens (zero only where the token grammar keeps them apart; a-1 is a legal re-layout of a - 1), inline block comments, trailing blanks, // comments before line breaks, LF/CRLF/mixed, 0-3 blank or comment-only lines at any existing line break (after '{', after 'case x:', inside import groups, at the start), any indentation, final newline as in the original. Oracle: same accept/reject for both targets and byte-identical scripts. Non-trivial = at least 3 layout edits of at least 2 kinds; distinct by re-laid-out text.",
 		[]string{"line breaks are only added next to existing line breaks (newlines are tokens of this grammar)", "multi-line block comments are only used as comment-only lines", "error texts are not compared (they carry positions)"})
 	defer r.Flush()
 	c13CorpusOnce.Do(loadC13Corpus)
-	gcfg := gen.Cfg{MaxStmts: 16, MaxDepth: 3, ExprDepth: 3, Funcs: true, MaxFuncs: 3, Slices: true, StrOps: true, LoopBudget: 8, Panics: true}
+	gcfg := gen.Cfg{MaxStmts: 16, MaxDepth: 3, ExprDepth: 3, Funcs: true, MaxFuncs: 3, Slices: true, StrOps: true, LoopBudget: 8, Panics: true, IO: true, ErrSpell: true}
 
 	// fixed cases named by the property (shard 0)
 	if e.Shard == 0 {
